@@ -188,3 +188,37 @@ def value_ctors(b, read, names):
         t = copy_item(b, read, "src/eval/value.rs", "fn", n)
         out.append(_e.annotate_fn(t, spec=f"\n    ensures {ens[n]},\n"))
     return "pub mod value {\n    use super::*;\n// ---- verbatim from src/eval/value.rs\n" + "\n".join(out) + "\n}"
+
+
+# ---- object cells under A-lock: std BTreeMap<String, SourcedValue> replaced by an assumed map contract
+OBJECT_MODEL = r"""
+// D3: std::collections::BTreeMap<String, SourcedValue> replaced by an ASSUMED finite-map contract
+// (get / get_mut / insert-replaces / len / ascending-key iteration is NOT modelled)
+#[verifier::external_body]
+#[verifier::reject_recursive_types(K)]
+#[verifier::accept_recursive_types(V)]
+pub struct BTreeMap<K, V> { _p: core::marker::PhantomData<(K, V)> }
+impl BTreeMap<String, SourcedValue> {
+    pub uninterp spec fn view(&self) -> Map<Seq<char>, SourcedValue>;
+    #[verifier::external_body]
+    pub fn new() -> (r: Self) ensures r@ == Map::<Seq<char>, SourcedValue>::empty() { unimplemented!() }
+    #[verifier::external_body]
+    pub fn len(&self) -> (r: usize) ensures r == self@.len(), self@.dom().finite() { unimplemented!() }
+    #[verifier::external_body]
+    pub fn get(&self, k: &str) -> (r: Option<&SourcedValue>)
+        ensures (match r { Some(v) => self@.contains_key(k@) && *v == self@[k@], None => !self@.contains_key(k@) })
+    { unimplemented!() }
+    #[verifier::external_body]
+    pub fn insert(&mut self, k: String, v: SourcedValue) -> (r: Option<SourcedValue>)
+        ensures final(self)@ == old(self)@.insert(k@, v)
+    { unimplemented!() }
+}
+pub type Object = BTreeMap<String, SourcedValue>;
+pub type ObjectRef = Arc<Mutex<Object>>;
+"""
+
+
+def value_model(object_transparent=False):
+    if not object_transparent:
+        return VALUE_MODEL
+    return VALUE_MODEL.replace("#[verifier::external_body]\npub struct ObjectRef { _p: () }\n", "") + OBJECT_MODEL
